@@ -30,6 +30,28 @@ Per project written to disk (an e2e.Project):
     components, sugar removal, ProgramArchive) are counted, not compared.
 
 `class_table()` reads Spec.NoSilentSpec.class_table through the extracted driver.
+
+Third pass — the stages between the parse_files loop and the runner
+(Model.FrontStages: check_compiler_version, the main-component match, the
+desugaring stage = Model.Desugar, the error values of generate_cfg =
+Model.LiftFull + Model.PipelineMirrors):
+  * harness `front stages` parses every file of the REAL FileLibrary alone
+    (single-file parser, its own file id) and hands over what the model takes
+    as given: per file the `pragma circom` version, whether it has a main
+    component, its line starts; the definitions (name, parameters, location
+    of the parameter list, file id, body) in the wire format of the desugar
+    / liftfull engines;
+  * the extracted Model.FrontStages.stage_run prints every report of the
+    mirrored stages (category, code id, code name, primary file ids) and, for
+    every definition handed to the runner, its `d_err`;
+  * the ground truth's parse-stage reports of those stages — recognised by FORM
+    (message text of errors.rs / the label text of TupleError and
+    AnonymousComponentError) — and the error report of every definition
+    (`generate_cfg` in process) are brought to the same form and compared as
+    sorted lists (the order inside the collection is hash-dependent).
+    Projects in which a name is defined twice are not compared (which copy
+    survives is hash-dependent: D22) and counted.
+`gen_compiler_version()` regenerates coq/gen/CompilerVersion.v from config.rs.
 """
 import json
 import os
@@ -159,6 +181,25 @@ def abstracts(projects):
     return abss
 
 
+def gen_compiler_version(repo=None):
+    """coq/gen/CompilerVersion.v from the text of program_analysis/src/config.rs of the tree under test."""
+    repo = repo or common.REPO
+    path = os.path.join(repo, "program_analysis", "src", "config.rs")
+    text = open(path).read()
+    m = re.search(r"pub const COMPILER_VERSION\s*:\s*Version\s*=\s*\(\s*(\d+)\s*,\s*(\d+)\s*,\s*(\d+)\s*\)\s*;", text)
+    if not m:
+        raise common.BuildError("config.rs: COMPILER_VERSION not recognised", text[:400])
+    a, b, c = (int(x) for x in m.groups())
+    out = ("(* GENERATED by lib/c02front.py (gen_compiler_version) from the text of\n"
+           "   program_analysis/src/config.rs of the current tree:\n"
+           "     %s\n"
+           "   (the constant analysis_runner.rs hands to parser::parse_files).\n"
+           "   Do not edit: rewritten on every run of ./check C02. *)\n"
+           "Definition compiler_version : nat * nat * nat := (%d, %d, %d).\n" % (m.group(0), a, b, c))
+    common.write_if_changed(os.path.join(common.COQ, "gen", "CompilerVersion.v"), out)
+    return (a, b, c)
+
+
 PF_ID_NUM, PF_NAME_NUM = 1000, 2000      # the numbers the check gives to ParseFail's id() and name() on the model's line
 
 
@@ -173,30 +214,111 @@ def parse_fail_code():
         raise common.BuildError("harness front code: unusable answer", (out + err)[-400:])
 
 
+# the codes of Model.FrontStages.codes, in the order of the model's `codes` field, with the numbers the check gives them
+STAGE_CODES = ["version_error", "no_version", "multiple_main", "tuple", "anonymous", "param_collision", "undefined"]
+STAGE_ID_NUM = {k: 1001 + i for i, k in enumerate(STAGE_CODES)}
+STAGE_NAME_NUM = {k: 2001 + i for i, k in enumerate(STAGE_CODES)}
+
+
+def stage_codes():
+    """{"codes": {key: {"id","name"}}, "compiler_version": [a,b,c]} of the tree under test (harness `front code`)."""
+    hb = common.build_harness("front")
+    rc, out, err = common.sh([hb, "code"], timeout=60)
+    try:
+        code = json.loads(out)
+        return {"codes": {k: {"id": str(code["codes"][k]["id"]), "name": str(code["codes"][k]["name"])} for k in STAGE_CODES},
+                "compiler_version": [int(x) for x in code["compiler_version"]]}
+    except (ValueError, KeyError, TypeError):
+        raise common.BuildError("harness front code: unusable answer (stage codes)", (out + err)[-400:])
+
+
+def stage_inputs(raw_truths):
+    """What the parser yields for the files of the real FileLibrary of every project (harness `front stages`)."""
+    hb = common.build_harness("front")
+    lines, idx = [], []
+    for i, t in enumerate(raw_truths):
+        if t.get("panic") or t.get("bad_input"):
+            continue
+        lines.append(json.dumps({"files": [[f["id"], f["path"]] for f in t["files"]]}))
+        idx.append(i)
+    out = common.run_lines(hb, ["stages"], lines, shards=common.NPROC, timeout=900) if lines else []
+    if len(out) != len(lines):
+        raise common.BuildError("harness front stages: %d answers for %d projects" % (len(out), len(lines)), "")
+    res = [None] * len(raw_truths)
+    for i, o in zip(idx, out):
+        try:
+            res[i] = json.loads(o)
+        except ValueError:
+            res[i] = None
+    return res
+
+
+def stage_fields(a, t, st):
+    """The four extra fields of the `stages` line of the model driver, or None if they cannot be encoded."""
+    if st is None or st.get("bad") or st.get("panic"):
+        return None
+    paths = {f["id"]: f["path"] for f in t["files"]}
+    vers, lib = [], []
+    for f in sorted(st["files"], key=lambda f: f["id"]):
+        lib.append(",".join(str(x) for x in f["starts"]))
+        if f["parsed"]:
+            p = paths[f["id"]]
+            if not encodable(p):
+                return None
+            vers.append("%s,%s,%d" % (p, ".".join(str(x) for x in f["ver"]) if f["ver"] else "none", int(bool(f["main"]))))
+    if [f["id"] for f in sorted(st["files"], key=lambda f: f["id"])] != list(range(len(st["files"]))):
+        return None
+    if any("\t" in d or "\n" in d for d in st["defs"]):
+        return None
+    codes = ",".join("%d,%d" % (STAGE_ID_NUM[k], STAGE_NAME_NUM[k]) for k in STAGE_CODES)
+    return "\t".join([";".join(vers) if vers else "-", codes, ";".join(lib) if lib else "-", "(prog %s)" % " ".join(st["defs"])])
+
+
+def def_names(st):
+    """(kind class, name) of the definitions of a `front stages` answer; templates and functions share one name space."""
+    out = []
+    for d in st["defs"]:
+        w = d.split(" ", 3)
+        out.append(w[2])
+    return out
+
+
 def class_table():
-    """Spec.NoSilentSpec.class_table as printed by the extracted driver: {class: (producer, shape)} (constructor names)."""
+    """Spec.NoSilentSpec.class_table as printed by the extracted driver: {class: (producer, derivation, shape)} (constructor names)."""
     mb = common.build_model("front")
     rc, out, err = common.sh([mb, "classes"], timeout=60)
     tab = {}
     for l in out.splitlines():
         w = l.split()
-        if len(w) != 3 or w[0] in tab:
+        if len(w) != 4 or w[0] in tab:
             raise common.BuildError("model_front classes: unusable line %r" % l, (out + err)[-400:])
-        tab[w[0]] = (w[1], w[2])
+        tab[w[0]] = (w[1], w[2], w[3])
     if rc != 0 or not tab:
         raise common.BuildError("model_front classes failed", (out + err)[-400:])
     return tab
 
 
-def run_model(abss):
+def run_model(abss, raw_truths=None, stage_in=None):
+    """One answer per project (None: not encodable). With raw_truths / stage_in the `stages` command is used (the answer has the
+    key "stage" where the stage inputs could be encoded, otherwise the project is run without the stages: no such key)."""
     mb = common.build_model("front")
-    lines, idx = [], []
+    lines, idx, plain, pidx = [], [], [], []
     for i, a in enumerate(abss):
         l = a.line()
         if l is not None and not any(v["c"] in ("panic", "bad-line") for v in a.contents.values()):
-            lines.append("%s\t%d\t%d" % (l, PF_ID_NUM, PF_NAME_NUM))
-            idx.append(i)
-    out = common.run_lines(mb, ["run"], lines, shards=common.NPROC, timeout=900) if lines else []
+            base = "%s\t%d\t%d" % (l, PF_ID_NUM, PF_NAME_NUM)
+            extra = stage_fields(a, raw_truths[i], stage_in[i]) if raw_truths is not None and stage_in is not None else None
+            if extra is not None:
+                lines.append(base + "\t" + extra)
+                idx.append(i)
+            else:
+                plain.append(base)
+                pidx.append(i)
+    out = common.run_lines(mb, ["stages"], lines, shards=common.NPROC, timeout=900) if lines else []
+    pout = common.run_lines(mb, ["run"], plain, shards=common.NPROC, timeout=900) if plain else []
+    if len(pout) != len(plain):
+        raise common.BuildError("model_front run: %d answers for %d projects" % (len(pout), len(plain)), "")
+    lines, idx, out = lines + plain, idx + pidx, out + pout
     if len(out) != len(lines):
         raise common.BuildError("model_front run: %d answers for %d projects" % (len(out), len(lines)), "")
     res = [None] * len(abss)
@@ -230,7 +352,9 @@ def normalise_truth(t, code, counts=None):
         elif r["id"] == code["id"]:
             reps.append(["other", r["message"][:80]])
         else:
-            if counts is not None:
+            # the reports of the stages of Model.FrontStages are compared by normalise_stage; what no mirror produces
+            # (ProgramArchive::new, the anonymous-main check) is counted
+            if counts is not None and stage_form(r) is None:
                 counts["other_stage_parse_reports_not_compared"] += 1
             continue
         full.append([r["level"], r["id"], r["name"], list(r["pfiles"])])
@@ -238,21 +362,76 @@ def normalise_truth(t, code, counts=None):
             "full": full, "user_ids": sorted(f["id"] for f in t["files"] if f["user"])}
 
 
+SUGAR_LABELS = ("The problem occurs here.", "Tuple instantiated here.", "Anonymous component instantiated here.")
+
+
+def stage_form(r):
+    """The stage of Model.FrontStages a parse-stage report of the ground truth belongs to, by its FORM (message text of
+    errors.rs, label text of TupleError / AnonymousComponentError::into_report), not by level or code; None: another stage."""
+    msg = r["message"]
+    labels = [l.get("msg") or "" for l in r["primary"]]
+    if re.match(r"The file `.*` requires version .* which is not supported by Circomspect", msg, re.S) and not r["primary"]:
+        return "version_error"
+    if re.match(r"The file `.*` does not include a version pragma\.", msg, re.S) and not r["primary"]:
+        return "no_version"
+    if msg == "Multiple main components found in the project structure." and not r["primary"]:
+        return "multiple_main"
+    if len(labels) == 1 and (labels[0] in SUGAR_LABELS or re.match(r"Unknown template `.*` instantiated here\.$", labels[0], re.S)):
+        return "sugar"
+    return None
+
+
+def normalise_stage(t, counts=None):
+    """The ground truth in the form of the model's "stage" answer: the reports of the mirrored stages and the error report of
+    every definition handed to the runner, each as [category, code id, code name, primary file ids]; both sorted."""
+    reps = []
+    for r in t["parse_reports"]:
+        f = stage_form(r)
+        if f is None:
+            continue
+        reps.append([r["level"], r["id"], r["name"], list(r["pfiles"])])
+        if counts is not None:
+            counts["stage_reports_by_form"][f] = counts["stage_reports_by_form"].get(f, 0) + 1
+    defs = []
+    for d in t["defs"]:
+        if d.get("panic"):
+            return None
+        e = d.get("err")
+        defs.append([d["kind"], d["name"], [e["level"], e["id"], e["name"], list(e["pfiles"])] if e else None])
+        if e and counts is not None:
+            k = "%s/%s@%s" % (e["id"], e["name"], d.get("err_stage"))
+            counts["definition_errors_seen"][k] = counts["definition_errors_seen"].get(k, 0) + 1
+    return {"reports": sorted(reps), "defs": sorted(defs, key=lambda x: (x[0], x[1]))}
+
+
 def compare(projects, raw_truths):
-    """-> (disagreements, stats). A disagreement: {"project", "model", "impl"}.
-    stats["hypothesis_broken"]: projects on which the premise `canon idempotent` of the theorems does not hold."""
+    """-> (disagreements, stats). A disagreement: {"project", "model", "impl"} (with "stage": True when it is in the part
+    of Model.FrontStages). stats["hypothesis_broken"]: projects on which the premise `canon idempotent` of the theorems
+    does not hold; stats["stage"]["metas_hypothesis_broken"]: projects with a definition one of whose metas lies in
+    another file than the definition."""
     code = parse_fail_code()
+    sc = stage_codes()
+    cv_text = list(gen_compiler_version())
     names = {PF_ID_NUM: code["id"], PF_NAME_NUM: code["name"]}
+    for k in STAGE_CODES:
+        names[STAGE_ID_NUM[k]] = sc["codes"][k]["id"]
+        names[STAGE_NAME_NUM[k]] = sc["codes"][k]["name"]
     abss = abstracts(projects)
-    models = run_model(abss)
+    stage_in = stage_inputs(raw_truths)
+    models = run_model(abss, raw_truths, stage_in)
     dis = []
+    sstats = {"compared": 0, "not_compared_duplicate_names": 0, "not_compared_not_encodable": 0, "not_compared_truth_panic": 0,
+              "reports_compared_level_code_location": 0, "definitions_compared": 0, "definition_errors_compared": 0,
+              "stage_reports_by_form": {}, "definition_errors_seen": {}, "metas_hypothesis_holds": 0,
+              "metas_hypothesis_broken": [], "disagreements": 0, "codes": sc["codes"],
+              "compiler_version": {"config_rs_text": cv_text, "harness": sc["compiler_version"], "model": None}}
     stats = {"compared": 0, "not_encodable": 0, "truth_unavailable": 0, "canon_idempotent": 0,
              "canon_not_idempotent": 0, "hypothesis_broken": [],
              "with_os_error": 0, "with_parse_error": 0, "with_include_error": 0,
              "named_file_read_as_include_first": 0,
              "parse_fail_code": code, "reports_compared_level_and_code": 0, "levels_seen": {}, "codes_seen": {},
              "other_stage_parse_reports_not_compared": 0, "not_compared_tags": []}
-    for p, a, m, t in zip(projects, abss, models, raw_truths):
+    for k, (p, a, m, t) in enumerate(zip(projects, abss, models, raw_truths)):
         if m is None:
             stats["not_encodable"] += 1
             stats["not_compared_tags"].append(p.tag)
@@ -270,6 +449,41 @@ def compare(projects, raw_truths):
                 stats["canon_not_idempotent"] += 1
                 stats["hypothesis_broken"].append(p.describe())
         m["user_ids"] = sorted(m.get("user_ids", []))
+        # ---- third pass: the stages of Model.FrontStages (compared separately from the Includes part)
+        has_stage = "stage" in m
+        mstage = m.pop("stage", None)
+        mcv = m.pop("compiler_version", None)
+        if mcv is not None:
+            sstats["compiler_version"]["model"] = mcv
+            if list(mcv) != list(sc["compiler_version"]):
+                dis.append({"project": p.describe(), "stage": True,
+                            "model": {"compiler_version": mcv}, "impl": {"compiler_version": sc["compiler_version"]}})
+        if not has_stage:
+            sstats["not_compared_not_encodable"] += 1
+        elif len(set(def_names(stage_in[k]))) != len(def_names(stage_in[k])):
+            sstats["not_compared_duplicate_names"] += 1
+        else:
+            ns = normalise_stage(t, sstats)
+            if ns is None:
+                sstats["not_compared_truth_panic"] += 1
+            else:
+                ms = None
+                if mstage is not None:
+                    back = lambda v: [v[0], names.get(v[1], "#%s" % v[1]), names.get(v[2], "#%s" % v[2]), v[3]]
+                    ms = {"reports": sorted(back(v) for v in mstage["reports"]),
+                          "defs": sorted(([k, nm, back(e) if e else None] for k, nm, e in mstage["defs"]), key=lambda x: (x[0], x[1]))}
+                    if mstage.get("metas_ok"):
+                        sstats["metas_hypothesis_holds"] += 1
+                    else:
+                        sstats["metas_hypothesis_broken"].append(p.describe())
+                sstats["compared"] += 1
+                if ms != ns:
+                    sstats["disagreements"] += 1
+                    dis.append({"project": p.describe(), "stage": True, "model": ms, "impl": ns})
+                else:
+                    sstats["reports_compared_level_code_location"] += len(ns["reports"])
+                    sstats["definitions_compared"] += len(ns["defs"])
+                    sstats["definition_errors_compared"] += sum(1 for d in ns["defs"] if d[2])
         # the model's numbers back to the strings they stand for
         m["full"] = [[lv, names.get(i, "#%s" % i), names.get(nm, "#%s" % nm), pf] for lv, i, nm, pf in m.get("full", [])]
         for lv, i, nm, pf in n["full"]:
@@ -289,6 +503,8 @@ def compare(projects, raw_truths):
         order = [f[0] for f in n["files"]]
         stats["named_file_read_as_include_first"] += _included_first(named, order, a)
     stats["not_compared_tags"] = stats["not_compared_tags"][:20]
+    sstats["metas_hypothesis_broken_count"] = len(sstats["metas_hypothesis_broken"])
+    stats["stage"] = sstats
     return dis, stats
 
 
